@@ -76,6 +76,14 @@ def build_facts(tier, variant):
     wd = witness_dirs(tier)
     if variant.startswith("feat:"):
         wd = [d for d in witness_dirs("quick") if os.path.basename(d) in FEATURE_VARIANT_WITNESSES]
+    dyn_info = {}
+    if not variant.startswith("perm:"):
+        # witness programs computed from the generator's current templates (hygiene of handler argument names)
+        from . import dynwit
+        dyn_root = os.path.join(util.CACHE, "dyn", variant.replace(":", "_"))
+        shutil.rmtree(dyn_root, ignore_errors=True)
+        dyn_dirs, dyn_info = dynwit.generate(dyn_root)
+        wd = list(wd) + dyn_dirs
     crates = corpus.assemble(util.REPO, ws, include_examples=True, witness_dirs=wd, permute=permute, sylvia_features=feats, **kw)
     names = sorted(set(c.name for c in crates if getattr(c, "indexed", True) and not getattr(c, "expect_fail", False)))
     all_names = sorted(set(c.name for c in crates))
@@ -133,6 +141,7 @@ def build_facts(tier, variant):
             m.crate_key = key
             m.origin = c.origin
             fx.items.append(m)
+    fx.dyn_info = dyn_info
     fx.build_wall = time.time() - t0
     # copies of expanded text are not kept; remove scratch
     if not os.environ.get("VERIF_KEEP_WORK"):
